@@ -20,6 +20,12 @@ Theorems about the EXECUTABLE model, for any scalar semantics `o : XOps α` (so 
 says it is outside; and over the reals the bin index of an accepted input is always in range.  The half of the
 property that is about rounding (`right + eps == right` in float32) is carried by executing the model in the same
 precision against the code (DESIGN §8).
+
+**Limits** (external audit): the `*_rejects_iff` theorems restate the comparison the model makes (their content is that the
+model makes the code's comparison, which the correspondence checks on boundary atoms ±1 ulp); "never fail" is `.ok` over ℝ,
+where `log 0` / `x/0` are totalised — the whole-program theorems that exclude them (`…_in_domain_total`: all gathers in range,
+logarithm arguments positive, discriminant ≥ 0) are the ones that carry the claim; statements are per element — the code rejects a
+whole batch when one element is outside, which no theorem here expresses.
 -/
 open NF
 
